@@ -283,18 +283,35 @@ def flow(func, gen, kill=None, mode="must", entry=frozenset()):
 
 # -- path conditions -----------------------------------------------------------
 
+def _fallthrough(prev):
+  """Conditions known to hold when control falls past statement `prev`."""
+  out = []
+  if isinstance(prev, ast.If):
+    body_t, else_t = terminates(prev.body), terminates(prev.orelse)
+    if body_t and not else_t:
+      out.append((prev.test, False))
+      # `if A: return ... elif B: continue`: falling through also needs not B
+      if len(prev.orelse) == 1:
+        out.extend(_fallthrough(prev.orelse[0]))
+    elif prev.orelse and else_t and not body_t:
+      out.append((prev.test, True))
+  elif isinstance(prev, ast.Assert):
+    out.append((prev.test, True))
+  return out
+
+
 def guards(parent, stmt, stop=None):
   """Path condition of `stmt` inside its function: list of (test_expr, polarity).
 
   Includes enclosing If/While tests and the negations established by earlier
-  early-exit guards in every enclosing block (`if c: return` => not c).
+  early-exit guards in every enclosing block (`if c: return` => not c),
+  including the function's own top-level block.  `stop` (the function node)
+  bounds the upward walk.
   """
   out = []
   node = stmt
   while node in parent:
     par = parent[node]
-    if par is stop:
-      break
     # which block of the parent holds node?
     for fld in ("body", "orelse", "finalbody", "handlers"):
       blk = getattr(par, fld, None)
@@ -307,15 +324,10 @@ def guards(parent, stmt, stop=None):
         # earlier early exits in this block
         idx = blk.index(node)
         for prev in blk[:idx]:
-          if isinstance(prev, ast.If):
-            if terminates(prev.body) and not terminates(prev.orelse):
-              out.append((prev.test, False))
-            elif prev.orelse and terminates(prev.orelse) and not terminates(prev.body):
-              out.append((prev.test, True))
-          elif isinstance(prev, ast.Assert):
-            out.append((prev.test, True))
+          out.extend(_fallthrough(prev))
         break
-    if isinstance(par, (ast.FunctionDef, ast.AsyncFunctionDef, ast.Lambda)):
+    if par is stop or isinstance(par, (ast.FunctionDef, ast.AsyncFunctionDef,
+                                       ast.Lambda)):
       break
     node = par
   return out
@@ -333,4 +345,15 @@ def attrs_in(expr):
       d = dotted(n)
       if d:
         out.add(d)
+  return out
+
+
+def guards_txt(parent, stmt, stop=None):
+  """guards() as a list of (unparsed test, polarity), with `not X` folded into
+  the polarity so that equivalent spellings compare equal."""
+  out = []
+  for t, p in guards(parent, stmt, stop):
+    while isinstance(t, ast.UnaryOp) and isinstance(t.op, ast.Not):
+      t, p = t.operand, not p
+    out.append((ast.unparse(t), p))
   return out
